@@ -40,6 +40,12 @@ class Var:
 
     def expr(self):
         k = self.idx
+        if self.kind == "s":
+            return E("V", self.shape, f"(s {k})", f"S.s[{k}]", f"o_s(S,{k})", self.bound, 0, [self.name],
+                     cls=DENSE, place=False, ops=("sparse",))
+        if self.kind == "C":
+            return E("M", self.shape, f"(C {k})", f"S.C[{k}]", f"o_C(S,{k})", self.bound, 0, [self.name],
+                     cls=DENSE, place=False, ops=("sparse",))
         if self.kind == "v":
             return E("V", self.shape, f"(v {k})", f"S.v[{k}]", f"o_v(S,{k})", self.bound, self.dexp, [self.name],
                      cls=DENSE, place=True, porc=f"p_v(X,{k})")
@@ -67,6 +73,8 @@ class Gen:
         self.r, self.ctx, self.maxdepth = rng, ctx, maxdepth
         self.api = Api(calc) if calc is not None else None
         self.vars = []
+        self.sparse = []
+        self.use_sparse = True
         self.unsupported = {}
 
     def K(self, name, *cls):
@@ -99,6 +107,16 @@ class Gen:
         bshapes = [(p, q), (q, s), (p, p), (s, q), (q, q)]
         for k, sh in enumerate(bshapes):
             self.vars.append(Var("B", k, sh))
+        self.sparse = []
+        for k, n in enumerate([p, q]):
+            sv = Var("s", k, n)
+            ent = [(i, r.choice([1, 2, -3, 4])) for i in range(n) if r.chance(1, 3)]
+            sv.line = f"svec {n} " + " ".join(f"{i}:{x}" for i, x in ent)
+            self.sparse.append(sv)
+        sm = Var("C", 0, (p, q))
+        ent = [(i, j, r.choice([1, -2, 3])) for i in range(p) for j in range(q) if r.chance(1, 3)]
+        sm.line = f"smat {p} {q} " + " ".join(f"{i},{j}:{x}" for i, j, x in ent)
+        self.sparse.append(sm)
         for v in self.vars:
             n = v.shape if v.kind == "v" else v.shape[0] * v.shape[1]
             if v.divisor:
@@ -109,6 +127,9 @@ class Gen:
                 ops.append("vec " + " ".join(map(str, [n] + v.values)))
             else:
                 ops.append(f"mat {v.kind} {v.shape[0]} {v.shape[1]} " + " ".join(map(str, v.values)))
+        if self.use_sparse:
+            for v in self.sparse:
+                ops.append(v.line)
         return [o.strip() for o in ops]
 
     # ------------------------------------------------------------------ helpers
@@ -597,9 +618,63 @@ class Gen:
                 return p
         return self.vvars()[0].expr()
 
+    def sparse_statement(self, k):
+        """dense target, right-hand side built from the sparse operands (dense <- sparse kernels,
+        sparse gemv); forms that add (f(x,0) = x) and plain assignment"""
+        r = self.r
+        sv = [v for v in self.sparse if v.kind == "s"]
+        sm = [v for v in self.sparse if v.kind == "C"][0]
+        s0 = r.choice(sv)
+        n = s0.shape
+        how = r.below(5)
+        if how == 0:
+            e = s0.expr()
+        elif how == 1:
+            e = self.mk_smul(self.const(), s0.expr())
+        elif how == 2:
+            n = sm.shape[0]
+            e = self.mk_mv(sm.expr(), self.gen_v(sm.shape[1], 1))
+        elif how == 3:
+            n = sm.shape[1]
+            e = self.mk_vm(self.gen_v(sm.shape[0], 1), sm.expr())
+        else:
+            e = self.mk_add(s0.expr(), self.gen_v(n, 1))
+        t = None
+        for _ in range(20):
+            t = self.place_v(n)
+            if t is not None and not (t.reads & e.reads):
+                break
+            t = None
+        if t is None or e.bits() > MAXBITS - 8:
+            return None
+        base = [v for v in self.vars if v.name in t.reads][0]
+        form = r.choice(["set", "plus", "minus", "set"])
+        fname = ("na_" if r.chance(1, 3) else "") + form
+        if form == "set":
+            base.bound, base.dexp = max(base.bound << max(0, e.dexp - base.dexp), e.bound << max(0, base.dexp - e.dexp)), max(base.dexp, e.dexp)
+        else:
+            base.bound, base.dexp = (base.bound << max(0, e.dexp - base.dexp)) + (e.bound << max(0, base.dexp - e.dexp)), max(base.dexp, e.dexp)
+        if max(1, base.bound).bit_length() + base.dexp > MAXBITS:
+            return None
+        return self.render_statement(k, fname, t, e)
+
+    def sparse_reduction(self, k):
+        r = self.r
+        s0 = r.choice([v for v in self.sparse if v.kind == "s"])
+        kind = r.choice(["sum", "norm_1", "inner_prod", "norm_sqr"])
+        args = [s0.expr()]
+        if kind == "inner_prod":
+            args.append(self.gen_v(s0.shape, 1))
+        return self.render_reduction(k, kind, args)
+
     def statement(self, k):
         """returns (op line text, C++ source of the statement functions, info dict) or None"""
         r = self.r
+        if self.use_sparse and self.sparse and r.chance(1, 8):
+            try:
+                return self.sparse_reduction(k) if r.chance(1, 4) else self.sparse_statement(k)
+            except Unsupported:
+                return None
         t = self.target()
         base = [v for v in self.vars if v.name in t.reads][0]
         form = r.choice(self.FORMS + ["set", "plus"])
@@ -755,7 +830,9 @@ class CorpusGen(Gen):
 
     def load(self, lines, k0):
         self.vars, init, stmts = [], [], []
+        self.sparse = []
         nv = na = nb = 0
+        ns = nc = 0
         k = k0
         for l in lines:
             t = l.split()
@@ -774,6 +851,14 @@ class CorpusGen(Gen):
                     nb += 1
                 v.bound = max([abs(int(x)) for x in t[4:]] + [1])
                 self.vars.append(v); init.append(l)
+            elif t[0] == "svec":
+                v = Var("s", ns, int(t[1])); ns += 1
+                v.bound = max([abs(int(x.split(":")[1])) for x in t[2:]] + [1])
+                self.sparse.append(v); init.append(l)
+            elif t[0] == "smat":
+                v = Var("C", nc, (int(t[1]), int(t[2]))); nc += 1
+                v.bound = max([abs(int(x.split(":")[1])) for x in t[3:]] + [1])
+                self.sparse.append(v); init.append(l)
             elif t[0] == "stmt":
                 form = t[2]
                 ses, pos, toks = [], 0, _tokens(" ".join(t[3:]))
@@ -796,7 +881,7 @@ class CorpusGen(Gen):
         return (init, stmts), k
 
     def var(self, kind, idx):
-        for v in self.vars:
+        for v in self.vars + self.sparse:
             if v.kind == kind and v.idx == idx:
                 return v.expr()
         raise ValueError(f"unknown variable {kind}{idx}")
@@ -804,7 +889,7 @@ class CorpusGen(Gen):
     def build(self, se):
         h, a = se[0], se[1:]
         B = self.build
-        if h in ("v", "A", "B"):
+        if h in ("v", "A", "B", "s", "C"):
             return self.var(h, int(a[0]))
         if h == "range": return self.mk_range(B(a[0]), int(a[1]), int(a[2]))
         if h == "row": return self.mk_row(B(a[0]), int(a[1]))
